@@ -23,6 +23,15 @@ Subset for the two handshake functions
                E + E (bytes concatenation), os.urandom(E),
                hmac.new(K, M, '<alg>').digest(), E[:len(C)], E[len(C):], int literals
   conditions:  E == E | E != E | hmac.compare_digest(E, E) | not COND
+
+Exceptions: try/except/finally/with are NOT in the subset (block() refuses them, and the
+shapes demanded of Listener.accept / Client leave no room for a handler around the two
+calls), so an exception raised by connection.send_bytes / connection.recv_bytes leaves the
+handshake function and accept()/Client().  That is the meaning Lib/AuthBase.run1f/run2f give
+to a process term over a channel whose calls may fail, and what the fault theorems of
+Props/C18.v rely on.  A function that handles exceptions makes the generation fail closed;
+props/C18.py then still drives the fault-injection histories against the real code and
+judges them with the trace-only monitor (accepted => right digest received).
 """
 import ast
 import os
